@@ -107,8 +107,13 @@ def variants_excluded(base):
                 k += 1
                 for field, desc in (((([nm], t, None)), "unexported %s %s" % (nm, go_t(t))),
                                     ((["Hidden%d" % k], t, 'parquet:"-"'), "tagged - %s" % go_t(t)),
-                                    ((["Also%d" % k], t, 'json:"x" parquet:"-"'), "tagged json+- %s" % go_t(t))):
+                                    ((["Also%d" % k], t, 'json:"x" parquet:"-"'), "tagged json+- %s" % go_t(t)),
+                                    # several names in one excluded declaration
+                                    ((["Sec%d" % k, "Tok%d" % k], t, 'parquet:"-"'), "multi-name tagged - %s" % go_t(t)),
+                                    (([nm, nm + "b"], t, None), "multi-name unexported %s %s" % (nm, go_t(t)))):
                     if field[0][0] == "_" and pos % 2:
+                        continue
+                    if len(field[0]) > 1 and (k % 2 or field[0][0] == "_"):
                         continue
                     d = copy.deepcopy(base)
                     d[si][1].insert(pos, field)
